@@ -227,7 +227,25 @@ func (d *driver) observe() obsT {
 // do performs one action and returns the observation at the next quiescent point.
 func (d *driver) do(a actT) obsT {
 	blocked := false
-	if a.Call {
+	if len(a.Burst) > 0 {
+		// all callers of the burst are created first and released through one gate, so that they really race
+		gate := make(chan struct{})
+		l := d.l
+		for _, b := range a.Burst {
+			c := &callerT{id: b.T, keys: b.Keys, write: b.Write, multi: b.Multi}
+			c.tk = spawn(func() {
+				<-gate
+				if c.multi {
+					l.LockN(c.keys, c.write)
+				} else {
+					l.Lock1(c.keys[0], c.write)
+				}
+			})
+			d.live[b.T] = c
+		}
+		close(gate)
+		d.settle(nil)
+	} else if a.Call {
 		c := &callerT{id: a.T, keys: a.Keys, write: a.Write, multi: a.Multi}
 		l := d.l
 		c.tk = spawn(func() {
